@@ -42,6 +42,17 @@ for sid in sorted(os.listdir(os.path.join(V, 'seeded'))):
         out.append(f'| {sid} | {what} ({needs}) | {r["result"]} | {obs} | {"yes" if r.get("with_replayed_input") else "no"} |')
     else:
         out.append(f'| {sid} | {what} ({needs}) | not run yet | | |')
+out.append('\n### 9.4 Per-property status (from the committed evidence files)\n')
+out.append('| Id | Functions under contract | Obligations | Discharged | Back ends | CPython cross-check (agree/disagree/inconclusive) | Known findings | quick wall |')
+out.append('|---|---|---|---|---|---|---|---|')
+evd = os.path.join(V, 'evidence')
+for fn in sorted(os.listdir(evd)):
+    e = json.load(open(os.path.join(evd, fn)))
+    c = e['coverage']
+    cc = c.get('cpython_crosscheck', {})
+    out.append(f"| {e['property_id']} | {len(c.get('functions_under_contract', []))} | {c['obligations']} | "
+               f"{c['discharged']} | {c.get('by_backend')} | {cc.get('agree')}/{cc.get('disagree')}/{cc.get('inconclusive')} | "
+               f"{len(c.get('known_finding_obligations', []))} | {e['wall_s']} s |")
 text = '\n'.join(out) + '\n'
 p = os.path.join(V, 'DESIGN.md')
 s = open(p).read()
